@@ -79,6 +79,7 @@ pub struct Run {
     pub last_export: HashMap<usize, Option<Value>>,
     /// model block number -> keys written by that commit (for schedules emitted by the model)
     pub written_by: HashMap<u64, Vec<String>>,
+    pub last_doc: HashMap<usize, Map<String, Value>>,
 }
 
 fn rname(r: usize) -> String {
@@ -108,6 +109,7 @@ impl Run {
             quiet: false,
             last_export: HashMap::new(),
             written_by: HashMap::new(),
+            last_doc: HashMap::new(),
         };
         let list_seed = spec.get("list_seed").and_then(|v| v.as_u64());
         let backend = spec.get("backend").and_then(|v| v.as_str()).map(|s| s.to_string());
@@ -293,9 +295,15 @@ impl Run {
         self.begin(&format!("{} r{}", name, r));
         let pool = &self.tp.clone();
         match name {
-            "update" | "edit" => {
+            "update" | "edit" | "resubmit" => {
                 let doc: Map<String, Value> = if name == "update" {
                     op["doc"].as_object().cloned().unwrap_or_default()
+                } else if name == "resubmit" {
+                    // the document this replica submitted last (e.g. redo of a discarded edit)
+                    match self.last_doc.get(&r) {
+                        Some(d) => d.clone(),
+                        None => return,
+                    }
                 } else {
                     let mut p = Prng::new(op["seed"].as_u64().unwrap_or(0));
                     let cur = catch_unwind(AssertUnwindSafe(|| self.reps[r].as_ref().unwrap().melda.read(None)));
@@ -311,6 +319,7 @@ impl Run {
                         }
                     }
                 };
+                self.last_doc.insert(r, doc.clone());
                 let sub = docproj_json(&project_doc(&doc));
                 let twice = op.get("twice").and_then(|v| v.as_bool()).unwrap_or(false);
                 let m = &self.reps[r].as_ref().unwrap().melda;
@@ -866,7 +875,20 @@ pub fn random_spec(run: u64, seed: u64, profile: &str) -> Value {
             65..=69 if nrep > 1 => json!({"op": "meld", "r": r, "s": s, "crashenum": profile == "crash"}),
             70..=74 => json!({"op": "refresh", "r": r}),
             75..=79 => json!({"op": "resolve", "r": r, "o": p.below(8), "leaf": p.below(4)}),
-            80..=82 => json!({"op": "unstage", "r": r}),
+            80..=82 => {
+                ops.push(json!({"op": "unstage", "r": r}));
+                if p.chance(1, 2) {
+                    // redo the discarded edit, then usually commit it
+                    ops.push(json!({"op": "resubmit", "r": r}));
+                    if p.chance(2, 3) {
+                        ops.push(json!({"op": "commit", "r": r, "seed": p.next()}));
+                        if p.chance(1, 2) {
+                            ops.push(json!({"op": "reopen", "r": r}));
+                        }
+                    }
+                }
+                json!({"op": "refresh", "r": r})
+            }
             83..=85 => json!({"op": "export_replay", "r": r}),
             86..=88 => json!({"op": "reload_until", "r": r, "hs": p.below(16)}),
             89..=90 => json!({"op": "reload", "r": r}),
